@@ -64,4 +64,25 @@ Definition volume_evalpts (tol8 : T) (dim pu pv pw : nat) (Uu Uv Uw : list T) (s
     (a0 a1 b0 b1 c0 c1 : T) (nu nv nw : nat) : list (list T) :=
   flat_map (fun u => flat_map (fun v => map (fun w => volume_point dim pu pv pw Uu Uv Uw su sv sw P u v w)
      (linspace K tol8 c0 c1 nw)) (linspace K tol8 b0 b1 nv)) (linspace K tol8 a0 a1 nu).
+(* object-level entry points: rational shapes evaluate on homogeneous points and project *)
+Definition obj_curve_point (rat : bool) (dim p : nat) (U : list T) (P : list (list T)) (u : T) : list T :=
+  if rat then project (curve_point (S dim) p U P u) else curve_point dim p U P u.
+Definition obj_surface_point (rat : bool) (dim pu pv : nat) (Uu Uv : list T) (su sv : nat) (P : list (list T)) (uv : T * T) : list T :=
+  if rat then project (surface_point (S dim) pu pv Uu Uv su sv P (fst uv) (snd uv)) else surface_point dim pu pv Uu Uv su sv P (fst uv) (snd uv).
+Definition obj_volume_point (rat : bool) (dim pu pv pw : nat) (Uu Uv Uw : list T) (su sv sw : nat) (P : list (list T)) (uvw : T * T * T) : list T :=
+  let '(u, v, w) := uvw in
+  if rat then project (volume_point (S dim) pu pv pw Uu Uv Uw su sv sw P u v w) else volume_point dim pu pv pw Uu Uv Uw su sv sw P u v w.
+(* evalpts of an object with sample sizes n*: the parameter grid is linspace(domain start, domain end, n) per direction,
+   u outermost, then v, then w *)
+Definition obj_curve_evalpts (tol8 : T) (rat : bool) (dim p : nat) (U : list T) (P : list (list T)) (n : nat) : list (list T) :=
+  map (obj_curve_point rat dim p U P) (linspace K tol8 (kn K U p) (kn K U (Nat.sub (length U) (S p))) n).
+Definition obj_surface_evalpts (tol8 : T) (rat : bool) (dim pu pv : nat) (Uu Uv : list T) (su sv : nat) (P : list (list T)) (nu nv : nat) : list (list T) :=
+  flat_map (fun u => map (fun v => obj_surface_point rat dim pu pv Uu Uv su sv P (u, v))
+     (linspace K tol8 (kn K Uv pv) (kn K Uv (Nat.sub (length Uv) (S pv))) nv))
+     (linspace K tol8 (kn K Uu pu) (kn K Uu (Nat.sub (length Uu) (S pu))) nu).
+Definition obj_volume_evalpts (tol8 : T) (rat : bool) (dim pu pv pw : nat) (Uu Uv Uw : list T) (su sv sw : nat) (P : list (list T)) (nu nv nw : nat) : list (list T) :=
+  flat_map (fun u => flat_map (fun v => map (fun w => obj_volume_point rat dim pu pv pw Uu Uv Uw su sv sw P (u, v, w))
+     (linspace K tol8 (kn K Uw pw) (kn K Uw (Nat.sub (length Uw) (S pw))) nw))
+     (linspace K tol8 (kn K Uv pv) (kn K Uv (Nat.sub (length Uv) (S pv))) nv))
+     (linspace K tol8 (kn K Uu pu) (kn K Uu (Nat.sub (length Uu) (S pu))) nu).
 End M.
